@@ -19,7 +19,7 @@ OWNED = ("C06",)
 
 def run(ctx):
     cfg = tlc.make_cfg(constants=dict(N=3, FixAdd=True, FixConj=True), spec="Spec", invariants=["Inv"])
-    r = tlc.run("QnLabels", cfg, timeout=1200)
+    r = tlc.run("QnLabels", cfg, vacuity=True, timeout=1200)
     ctx.add_tlc(r, "QnLabels N=3 (repaired add / conj_trans)")
     if r["violated"]:
         ctx.violation("C06:spec:QnLabels", "QnLabels violates LabelsValid", {"tlc": r.get("error_text", "")[:3000]})
